@@ -200,9 +200,11 @@ func ParseCopySourceRange(size int64, acceptRange string) (int64, int64, error) 
 // uploads, would never be listed and would be destroyed with the bucket.
 const ReservedKeyPrefix = ".sgwtmp"
 
-// IsReservedKey reports whether the object key lies in the reserved namespace
+// IsReservedKey reports whether the object key lies in the reserved namespace.
+// Leading separators do not count: joined to the bucket directory they
+// vanish ("/.sgwtmp/x" names the same file as ".sgwtmp/x").
 func IsReservedKey(key string) bool {
-	first, _, _ := strings.Cut(key, "/")
+	first, _, _ := strings.Cut(strings.TrimLeft(key, "/"), "/")
 	return first == ReservedKeyPrefix
 }
 
